@@ -90,6 +90,16 @@ func (s *verifFaultServer) serve(c net.Conn, i int, sc verifTCPAttempt, o *verif
 		}
 	}
 	answer := func(code int) {
+		if sc.When == "full-stalled-reply" {
+			// the reply announces a body that never comes (a proxy that hangs while writing its error page); the connection stays open
+			fmt.Fprintf(c, "HTTP/1.1 %d %s\r\nContent-Type: text/plain\r\nContent-Length: 4096\r\n\r\npartial error page", code, http.StatusText(code))
+			s.mu.Lock()
+			o.Status = code
+			o.Acked = false
+			s.mu.Unlock()
+			time.Sleep(15 * time.Second)
+			return
+		}
 		fmt.Fprintf(c, "HTTP/1.1 %d %s\r\nContent-Length: 2\r\n\r\nok", code, http.StatusText(code))
 		s.mu.Lock()
 		o.Status = code
@@ -133,7 +143,7 @@ func (s *verifFaultServer) serve(c net.Conn, i int, sc verifTCPAttempt, o *verif
 	s.mu.Lock()
 	o.Complete = complete
 	s.mu.Unlock()
-	if sc.When == "full" && complete {
+	if (sc.When == "full" || sc.When == "full-stalled-reply") && complete {
 		answer(sc.Status)
 	}
 }
@@ -245,6 +255,10 @@ func TestVerifC06Transport(t *testing.T) {
 			verifTransportCase{Name: "500-after-body-then-ok/one-connection-per-host", Size: size, First: size, MaxConns: 1, Script: []verifTCPAttempt{f500, ok}},
 			verifTransportCase{Name: "all-fail/one-connection-per-host", Size: size, First: size, MaxConns: 1, Script: []verifTCPAttempt{f500, f500, f500, f500}},
 		)
+	}
+	// a 5xx reply whose own body never arrives: the attempt is over when the status is known
+	for _, size := range []int{10, 3000} {
+		cases = append(cases, verifTransportCase{Name: "5xx-reply-body-stalls-then-ok", Size: size, First: size, Script: []verifTCPAttempt{{When: "full-stalled-reply", Status: 503}, ok}})
 	}
 	// every attempt is refused while the handler still has most of its body to write: the handler must not stay blocked
 	for _, size := range []int{5000, 100000, 1000000} {
